@@ -184,6 +184,21 @@ func TestC14(t *testing.T) {
 // later time is the newest, also when both fall into the same second, whichever was added first.
 func c14Newest(v *Verdict) {
 	base := time.Unix(1700000000, 0)
+	// entries of another principal (same realm, etype and number of components) that are newer and stand before and
+	// between the wanted ones play no part
+	for _, kvno := range []int{0, 2} {
+		kt := keytab.New()
+		kt.AddEntry("HOST/www", "R", "h1", base.Add(2000*time.Second), 2, 18)
+		kt.AddEntry("HTTP/www", "R", "p1", base.Add(500*time.Second), 1, 18)
+		kt.AddEntry("HTTP/www", "R", "p2", base.Add(1000*time.Second), 2, 18)
+		kt.AddEntry("HOST/www", "R", "h2", base.Add(3000*time.Second), 2, 18)
+		kt.AddEntry("HTTP/www", "R", "p3", base.Add(2500*time.Second), 2, 18)
+		key, kv, err := kt.GetEncryptionKey(types.PrincipalName{NameType: 1, NameString: []string{"HTTP", "www"}}, "R", kvno, 18)
+		v.Case(fmt.Sprintf("newest-among-others/%d", kvno), "newest entry of one principal among newer entries of another")
+		if err != nil || len(kt.Entries) != 5 || string(key.KeyValue) != string(kt.Entries[4].Key.KeyValue) || kv != 2 {
+			v.Violate("failing-input", "c14:newest-among-others", "newer entries of another principal change which entry a lookup returns", map[string]string{"requested-kvno": fmt.Sprint(kvno), "returned-kvno": fmt.Sprint(kv), "error": fmt.Sprint(err)})
+		}
+	}
 	// three matching entries in every order (the newest so far is what a later one is compared with)
 	for _, ord := range [][3]int{{300, 400, 500}, {300, 500, 400}, {400, 300, 500}, {400, 500, 300}, {500, 300, 400}, {500, 400, 300}} {
 		for _, sameKvno := range []bool{false, true} {
@@ -291,6 +306,39 @@ func c14File(m *Model, v *Verdict, file []byte, expect string, shape string, ori
 	return res == "ok", got
 }
 
+// c14EndMarker puts a zero record length in front of one of the records of the file (not the first one when there
+// are several): the records from there on are stale data behind the end of the keytab.
+func c14EndMarker(file []byte, ver int, items []ktItem, rng *RNG) []byte {
+	var bo binary.ByteOrder = binary.BigEndian
+	if ver == 1 {
+		bo = binary.LittleEndian
+	}
+	var starts []int
+	p := 2
+	for range items {
+		if p+4 > len(file) {
+			return nil
+		}
+		starts = append(starts, p)
+		l := int32(bo.Uint32(file[p:]))
+		n := int(l)
+		if l < 0 {
+			n = -n
+		}
+		p += 4 + n
+	}
+	if p != len(file) || len(starts) == 0 {
+		return nil
+	}
+	at := starts[rng.Intn(len(starts))]
+	if len(starts) > 1 && at == starts[0] {
+		at = starts[1]
+	}
+	out := append([]byte{}, file[:at]...)
+	out = append(out, 0, 0, 0, 0)
+	return append(out, file[at:]...)
+}
+
 // c14AddTails appends 1..8 octets (4 in half of the cases) to every record of the file that has a 32-bit key
 // version field, and adjusts the record's length. nil when there is no such record or the walk does not fit.
 func c14AddTails(file []byte, ver int, items []ktItem, rng *RNG) []byte {
@@ -374,6 +422,12 @@ func c14Case(m *Model, v *Verdict, rng *RNG, idx int) {
 	}
 	// ---- the same file with further fields after the 32-bit key version of its records (the record length
 	// delimits a record; Heimdal writes a 32-bit flags word there): the entries read are the same ones
+	// ---- a record length of zero marks the end of the keytab: what follows it (old contents of a file that was
+	// shortened in place) is not read
+	if marked := c14EndMarker(file, ver, items, rng); marked != nil {
+		v.Case(key+"/endmark", "render+parse with an end marker before stale records "+fmt.Sprintf("v%d", ver))
+		c14File(m, v, marked, "", shape+"/endmark", "rendered (end marker, then stale records)")
+	}
 	if tailed := c14AddTails(file, ver, items, rng); tailed != nil {
 		v.Case(key+"/tail", "render+parse with record tails "+fmt.Sprintf("v%d", ver))
 		c14File(m, v, tailed, exp, shape+"/tail", "rendered (fields after the 32-bit key version)")
